@@ -37,8 +37,8 @@ def run(chk):
     trec.run_scope(chk, "C01-e", scope="read", floor=8)
     from .c04 import check_readers
     check_readers(chk, "C01-d")
-    chk.assume("overflow Asserts in hand-written table helpers outside the core zone, loop termination and the linear-time clause "
-               "are not decided (see DESIGN.md)")
+    chk.assume("not decided: the sites and loops that rules/site_baseline.json lists as untriaged, finiteness of repo-defined "
+               "iterators, and the linear-time clause (a paced loop inside a paced loop passes) -- see DESIGN.md 9.6 / 9.10")
 
 
 def run_config(chk, facts, cfg):
